@@ -167,9 +167,16 @@ def _ref_bits(method, wv, bit):
     return ("raise", "DiameterTypeError") if not s else ("ret", wv & ~(1 << bit))
 
 
-def e2_is_bit_set(): return _bits("is_bit_set")
-def e2_set_bit(): return _bits("set_bit")
-def e2_unset_bit(): return _bits("unset_bit")
+def _guard(method):
+    try:
+        return _bits(method)
+    except A.Unsupported as e:
+        return {"verdict": "inconclusive", "detail": f"E2 translator: unsupported construct ({e}); the E1 queries still decide this clause"}
+
+
+def e2_is_bit_set(): return _guard("is_bit_set")
+def e2_set_bit(): return _guard("set_bit")
+def e2_unset_bit(): return _guard("unset_bit")
 
 
 # ------------------------------------------------------------------ E1: bits through real AVP instances
@@ -243,11 +250,16 @@ def bit_set_then_unset(w: int, bit: int) -> bool:
     post: _
     """
     a = _mk(w)
-    a.set_bit(bit)
-    mid = a.is_bit_set(bit)
-    a.unset_bit(bit)
+    try:
+        a.set_bit(bit)
+        mid = a.is_bit_set(bit)
+        a.unset_bit(bit)
+        end = a.is_bit_set(bit)
+    except LIB:
+        reached()
+        return False        # a legal set/test/clear sequence must not be rejected
     reached()
-    return mid is True and a.is_bit_set(bit) is False and int.from_bytes(a.data, "big") == w
+    return mid is True and end is False and int.from_bytes(a.data, "big") == w
 
 
 # ------------------------------------------------------------------ E1: Address
